@@ -1104,7 +1104,12 @@ class Interp:
             init = self._get_binding(pre, where, key)
             k = (init.term if init is not None else None)
             ordinal[k] = ordinal.get(k, 0) + 1
-            hv = self._head_value(init, lid, ordinal[k], probe_v=self._get_binding(probe, where, key))
+            pv_ = self._get_binding(probe, where, key)
+            hv = self._head_value(init, lid, ordinal[k], probe_v=pv_)
+            if pv_ is not None and pv_.labels - hv.labels:
+                # provenance: what one pass of the body lets flow into the carried value is part of the
+                # value every later iteration starts from
+                hv = hv.replace(labels=hv.labels | pv_.labels)
             head_terms[(where, key)] = hv.term
             self._set_binding(head, where, key, hv)
         alive2, cterm, rets = run(head)
